@@ -20,13 +20,38 @@ import (
 
 // the match functions as the node registers them: AddStreamHandlers on a Service whose libp2p
 // host only records what it is handed
+// (like the multistream muxer underneath the real host, it keeps ONE handler per key it is given:
+// a later registration under the same key replaces the earlier one)
 type c16Host struct {
 	host.Host
-	matches []func(protocol.ID) bool
+	calls   int
+	entries []c16Entry
+}
+type c16Entry struct {
+	key   protocol.ID
+	match func(protocol.ID) bool
+	call  int // which SetStreamHandlerMatch call (= which descriptor) registered it
 }
 
-func (h *c16Host) SetStreamHandlerMatch(_ protocol.ID, m func(protocol.ID) bool, _ network.StreamHandler) {
-	h.matches = append(h.matches, m)
+func (h *c16Host) SetStreamHandlerMatch(id protocol.ID, m func(protocol.ID) bool, _ network.StreamHandler) {
+	kept := h.entries[:0]
+	for _, e := range h.entries {
+		if e.key != id {
+			kept = append(kept, e)
+		}
+	}
+	h.entries = append(kept, c16Entry{id, m, h.calls})
+	h.calls++
+}
+
+// the match function the host still holds for descriptor number idx (nil: replaced by another)
+func (h *c16Host) matchOf(idx int) func(protocol.ID) bool {
+	for _, e := range h.entries {
+		if e.call == idx {
+			return e.match
+		}
+	}
+	return nil
 }
 
 type c16Desc struct {
@@ -52,6 +77,9 @@ type c16In struct {
 	// match function registered for descriptor number Index (whose name/version are Name/Version)
 	Group []c16Desc `json:"group,omitempty"`
 	Index int       `json:"index,omitempty"`
+	// identifiers (hex) of streams that reached the same registered match functions before the
+	// measured one: what a peer sent earlier must not change how this one is routed
+	Pre []string `json:"pre,omitempty"`
 }
 type c16Obs struct {
 	Match bool `json:"match"`
@@ -79,7 +107,16 @@ func c16Run(in c16In) (obs c16Obs) {
 			descs = append(descs, p2p.StreamDesc{Name: string(n), Version: string(v)})
 		}
 		svc.AddStreamHandlers(descs...)
-		m = fh.matches[in.Index](protocol.ID(inc))
+		for _, p := range in.Pre {
+			pb, _ := hex.DecodeString(p)
+			for _, e := range fh.entries {
+				e.match(protocol.ID(pb))
+			}
+		}
+		m = false
+		if f := fh.matchOf(in.Index); f != nil {
+			m = f(protocol.ID(inc))
+		}
 	}
 	return c16Obs{Match: m, Err: err != nil}
 }
@@ -153,10 +190,25 @@ func TestVerifC16(t *testing.T) {
 			M, m, p uint64
 		}
 		var ds []dv
+		pool := []string{"alpha", "beta", "gamma", "delta", "pre", "preconf", "preconfirmation", "discovery"}
 		for j := 0; j < k; j++ {
-			d := dv{[]string{"alpha", "beta", "gamma", "alpha", "pre", "preconf", "preconfirmation"}[rng.intn(7)], uint64(rng.intn(3)), uint64(rng.intn(4)), uint64(rng.intn(3))}
+			pi := rng.intn(len(pool))
+			d := dv{pool[pi], uint64(rng.intn(3)), uint64(rng.intn(4)), uint64(rng.intn(3))}
+			pool = append(pool[:pi], pool[pi+1:]...) // one handler per protocol name, as in the node
+			if j > 0 && rng.chance(50) {             // the node's protocols mostly carry the same version
+				d.M, d.m, d.p = ds[0].M, ds[0].m, ds[0].p
+			}
 			ds = append(ds, d)
 			group = append(group, c16Desc{hx(d.name), hx(fmt.Sprintf("%d.%d.%d", d.M, d.m, d.p))})
+		}
+		var pre []string
+		if rng.chance(40) {
+			for _, bad := range []string{"not-a-version", "1.0", "v1.0.0", "99999999999999999999.0.0", "", "1.0.0.0", "1.x.0"} {
+				if rng.chance(50) {
+					pre = append(pre, hx("/"+ds[rng.intn(len(ds))].name+"/"+bad))
+				}
+			}
+			pre = append(pre, hx("/"+ds[0].name), hx("garbage"))
 		}
 		for idx, d := range ds {
 			for q := 0; q < 3; q++ {
@@ -167,7 +219,7 @@ func TestVerifC16(t *testing.T) {
 				iM, im, ip := uint64(rng.intn(3)), uint64(rng.intn(4)), uint64(rng.intn(3))
 				in := c16In{Incoming: hx(fmt.Sprintf("/%s/%d.%d.%d", iname, iM, im, ip)), Name: hx(d.name),
 					Version: hx(fmt.Sprintf("%d.%d.%d", d.M, d.m, d.p)), Claim: &c16Claim{hx(iname), iM, im, ip, d.M, d.m, d.p},
-					Group: group, Index: idx}
+					Group: group, Index: idx, Pre: pre}
 				out.emit(in, c16Run(in))
 			}
 			// identifiers that merely begin with the handler's name and end with exactly its version:
